@@ -105,7 +105,7 @@ TsWalk(e, bs, i, seen, j) ==
   ELSE LET o == e.out[j]
            r == ReadOne(e.role, bs, i, seen)
            last == j = Len(e.out)
-           keeps == e.api = "frombuf" => o.used = i - 1 IN
+           keeps == e.api \in {"frombuf", "incr"} => o.used = i - 1 IN
     CASE r.k = "any" -> TRUE
       [] r.k = "frame" ->
            /\ o.res = "ok" /\ FrameFieldsMatch(o, r.f, bs) /\ o.used = r.next - 1
